@@ -288,10 +288,13 @@ func planSession(t *testing.T, run *ev.Run, si, nPlans int) *violation {
 				// native call, nothing to conclude about rollback.
 				run.Obs("reference_mispredicted_native_failure", 1)
 				run.Note(fmt.Sprintf("mispredicted_s%d_%d", si, k), map[string]any{"plan": planString(root), "fault_a": aerA.FaultException, "fault_b": aerB.FaultException})
-				if len(pruned) == len(root) && planString(pruned) == planString(root) {
-					continue
-				}
 				continue
+			}
+			if outOfGas {
+				// it got by with less GAS than the test invocation used: nothing to
+				// conclude about rollback, and the chains are out of step now
+				run.Inconclusive("plans/s%d #%d: out-of-gas variant halted", si, k)
+				return nil
 			}
 			sig := "plan:halt-expected-but-faulted"
 			if wantFault {
